@@ -21,6 +21,7 @@ type Solver struct {
 	out      *bufio.Scanner
 	lines    chan string
 	hardMs   int
+	seq      int
 	timeoutMs int
 	restarts int
 	p        *printer
@@ -67,7 +68,7 @@ func (s *Solver) modelHit(ex *Exec, g *T) bool {
 // restart replaces a hung solver process by a fresh one; definitions and assumptions are re-sent
 // lazily by the next feasibility check (printer state is reset), verdict cache and models are kept.
 func (s *Solver) restart() bool {
-	if s.restarts >= 8 {
+	if s.restarts >= 200 {
 		return false
 	}
 	n := newSolver(s.timeoutMs)
@@ -93,7 +94,7 @@ func newSolver(timeoutMs int) *Solver {
 	fmt.Fprintf(in, "(set-option :timeout %d)\n%s", timeoutMs, smtPrelude)
 	sc := bufio.NewScanner(out)
 	sc.Buffer(make([]byte, 1<<20), 1<<26)
-	s := &Solver{cmd: cmd, in: in, out: sc, p: newPrinter(), cache: map[*T]bool{}, lines: make(chan string, 1024), hardMs: 10*timeoutMs + 2000, timeoutMs: timeoutMs}
+	s := &Solver{cmd: cmd, in: in, out: sc, p: newPrinter(), cache: map[*T]bool{}, lines: make(chan string, 1024), hardMs: hardDeadline(timeoutMs), timeoutMs: timeoutMs}
 	ch := s.lines
 	go func() {
 		for sc.Scan() {
@@ -164,7 +165,9 @@ func (s *Solver) feasible0(ex *Exec, g *T, force bool) bool {
 	r := s.p.ref(g)
 	// variables may have been created while printing? no: printing creates no terms
 	s.nvarsOut = s.p.declVarsTo(sb, s.nvarsOut)
-	fmt.Fprintf(sb, "(push)\n(assert %s)\n(check-sat)\n", r)
+	s.seq++
+	endMark := fmt.Sprintf("vh-e %d", s.seq)
+	fmt.Fprintf(sb, "(push)\n(assert %s)\n(check-sat)\n(echo \"%s\")\n", r, endMark)
 	if lf := os.Getenv("GOSMT_PRUNELOG"); lf != "" {
 		f, _ := os.OpenFile(lf, os.O_APPEND|os.O_CREATE|os.O_WRONLY, 0o644)
 		f.WriteString(sb.String())
@@ -174,27 +177,47 @@ func (s *Solver) feasible0(ex *Exec, g *T, force bool) bool {
 		s.dead = true
 		return true
 	}
+	// Everything up to the end marker belongs to this exchange (definitions, the guard assertion, the
+	// check). An (error line anywhere in it - z3 reports a timeout during an (assert as
+	// "canceled" and then still answers the check-sat, without the guard - makes the answer unknown.
 	ans := ""
+	sawError := false
 	for {
 		l, ok := s.readLine()
 		if !ok {
 			s.unknown++
 			return true
 		}
-		ans = l
-		if ans == "sat" || ans == "unsat" || ans == "unknown" {
+		tl := strings.Trim(strings.TrimSpace(l), "\"")
+		if tl == endMark {
 			break
 		}
-		if strings.HasPrefix(ans, "(error") {
-			if strings.Contains(ans, "canceled") || strings.Contains(ans, "timeout") {
-				// z3 reports a timed-out check this way; the (pop) still executes
-				ans = "unknown"
-				break
-			}
-			fmt.Fprintln(os.Stderr, "pruning solver:", ans)
-			s.dead = true
-			return true
+		if tl == "sat" || tl == "unsat" || tl == "unknown" {
+			ans = tl
 		}
+		if strings.HasPrefix(tl, "(error") {
+			sawError = true
+			if !strings.Contains(tl, "canceled") && !strings.Contains(tl, "timeout") {
+				fmt.Fprintln(os.Stderr, "pruning solver:", tl)
+			}
+		}
+	}
+	if sawError || ans == "" {
+		ans = "unknown"
+	}
+	if ans == "unknown" {
+		// z3 4.8.12's incremental core is not reliable after an interrupted check (observed: after one
+		// timeout every later check of the same process answered unsat, even for `0 < h` with h in
+		// [0,64]). The process is therefore replaced after every unknown answer; definitions and
+		// assumptions are re-sent lazily. If no replacement can be started pruning is switched off.
+		s.checks++
+		s.unknown++
+		s.spent += time.Since(t0)
+		if !s.restart() {
+			s.dead = true
+			s.cmd.Process.Kill()
+		}
+		return true
 	}
 	s.checks++
 	if ans == "sat" && len(vars) > 0 {
@@ -399,6 +422,10 @@ func solveQueries(ex *Exec, qs []Query, dir string, timeout time.Duration, worke
 				res[i].Secs = time.Since(t0).Seconds()
 				if v == "sat" {
 					res[i].Model = parseModel(rest)
+					if why := modelRejected(ex.assumes, qs[i].cond, res[i].Model); why != "" && !hasAlgebraic(rest) {
+						res[i].Verdict = "unknown"
+						res[i].Solver += " (sat answer rejected: " + why + ")"
+					}
 				}
 			}(i, file)
 		}
@@ -430,11 +457,39 @@ func solveQueries(ex *Exec, qs []Query, dir string, timeout time.Duration, worke
 		go func(idxs []int, file, file5 string) {
 			defer wg.Done()
 			ans := runBatch(solver, file, timeout, len(idxs))
+			// an interrupted check can leave z3's incremental core in a state in which later checks of the
+			// same process answer unsat spuriously: every query AFTER an undecided one is asked again in a
+			// fresh process (repeatedly, the batch shrinks each time)
+			for start := 0; start < len(idxs); {
+				bad := -1
+				for k := start; k < len(idxs); k++ {
+					if ans[k].verdict != "sat" && ans[k].verdict != "unsat" {
+						bad = k
+						break
+					}
+				}
+				if bad < 0 || bad == len(idxs)-1 {
+					break
+				}
+				rest := idxs[bad+1:]
+				rfile := fmt.Sprintf("%s.retry%d.smt2", strings.TrimSuffix(file, ".smt2"), bad)
+				text, _ := buildBatchText(ex.assumes, qs, rest, timeout, false)
+				os.WriteFile(rfile, []byte(text), 0o644)
+				rans := runBatch(solver, rfile, timeout, len(rest))
+				copy(ans[bad+1:], rans)
+				start = bad + 1
+			}
 			for k, i := range idxs {
 				res[i].Verdict = ans[k].verdict
 				res[i].Secs = ans[k].secs
 				if ans[k].verdict == "sat" {
 					res[i].Model = parseModel(ans[k].rest)
+					if why := modelRejected(ex.assumes, qs[i].cond, res[i].Model); why != "" {
+						// every sat answer is validated: the model must satisfy the assumptions and the query under the
+						// engine's own exact evaluator; otherwise the answer is treated as inconclusive
+						res[i].Verdict = "unknown"
+						res[i].Solver += " (sat answer rejected: " + why + ")"
+					}
 				}
 			}
 			if cross {
@@ -615,3 +670,36 @@ func (s *Solver) lastModelFor(ex *Exec, g *T) *evaluator {
 	return nil
 }
 
+
+// modelRejected evaluates the assumptions and the query condition under a solver model with the
+// engine's exact evaluator; "" means the model is a genuine witness.
+func modelRejected(assumes []*T, cond *T, m Model) (why string) {
+	defer func() {
+		if r := recover(); r != nil {
+			why = "" // the evaluator cannot evaluate this formula (e.g. algebraic numbers): keep the solver's answer
+		}
+	}()
+	ev := newEvaluator(m)
+	for i, a := range assumes {
+		if !ev.b(a) {
+			return fmt.Sprintf("assumption %d is false under the model", i)
+		}
+	}
+	if !ev.b(cond) {
+		return "the query condition is false under the model"
+	}
+	return ""
+}
+
+func hasAlgebraic(rest string) bool { return strings.Contains(rest, "root-obj") }
+
+func hardDeadline(timeoutMs int) int {
+	if v := os.Getenv("GOSMT_HARDMS"); v != "" { // debugging aid: force the watchdog / restart path
+		n := 0
+		fmt.Sscan(v, &n)
+		if n > 0 {
+			return n
+		}
+	}
+	return 10*timeoutMs + 2000
+}
